@@ -16,7 +16,7 @@ def write_if_changed(path, text):
 
 
 def run(only=None):
-    from translate import py_int2coq, py_consts2coq, py_effects2coq, py_ledger2coq, py_disp2coq, py_shift2coq, py_float2coq, py_hilbert2coq, py_stft2coq, py_ufunc2coq, py_pol2coq, py_concat2coq, py_reader2coq, py_predictor2coq, py_dask2coq
+    from translate import py_int2coq, py_consts2coq, py_effects2coq, py_ledger2coq, py_disp2coq, py_shift2coq, py_float2coq, py_hilbert2coq, py_stft2coq, py_ufunc2coq, py_pol2coq, py_concat2coq, py_reader2coq, py_predictor2coq, py_dask2coq, py_contract2coq
     jobs = {
         'GenUtils.v': lambda: py_int2coq.generate(os.path.join(REPO, 'utils.py'), ['next_fast_len', 'prev_fast_len']),
         'GenConsts.v': lambda: py_consts2coq.generate(REPO),
@@ -37,6 +37,7 @@ def run(only=None):
         'GenReader.v': lambda: py_reader2coq.generate('/repo'),
         'GenPolyco.v': lambda: py_predictor2coq.generate('/repo'),
         'GenDask.v': lambda: py_dask2coq.generate('/repo'),
+        'GenContract.v': lambda: py_contract2coq.generate('/repo'),
     }
     res = {}
     os.makedirs(GEN, exist_ok=True)
